@@ -470,6 +470,15 @@ def _b_delta(w, n, p=1):
     return KroneckerDelta(n, p)
 
 
+def _b_const(w, name):
+    """The public module constants themselves (shared with every other run in the process), as operands."""
+    import geometer.curve
+    import geometer.point
+
+    return {"I": geometer.point.I, "J": geometer.point.J, "infty": geometer.point.infty,
+            "infty_plane": geometer.point.infty_plane, "absolute_conic": geometer.curve.absolute_conic}[name]
+
+
 def _b_alias(w, of, how, idx=None):
     x = w.get(of)
     if how == "copy":
